@@ -7,6 +7,7 @@ import (
 	"net"
 	"sort"
 	"strings"
+	"time"
 
 	"verifharness/vc"
 
@@ -102,5 +103,105 @@ func c13concurrent(ctx *vc.Ctx) {
 			return "rejoin-set=" + want, "", ""
 		}
 		ctx.Explore(vc.ExploreOpts{Name: fmt.Sprintf("concurrent/leave-then-events-racing-shutdown/rejoin=%v", rejoin), Bound: bound, MaxSteps: 100000}, body, check)
+	}
+}
+
+// c13slowDisk: the stream goroutine is inside a file operation that takes 600 ms (a slow disk)
+// when Leave is called (at several offsets into that operation). However long the hand-over of
+// the leave takes, once Leave has returned and the node has shut down, the leave is on record:
+// a restart re-joins nobody (rejoin disabled) resp. the set at the leave (rejoin enabled).
+func c13slowDisk(ctx *vc.Ctx) {
+	bound := 2
+	if ctx.Thorough() {
+		bound = 4
+	}
+	for _, rejoin := range []bool{false, true} {
+		for _, off := range []time.Duration{0, 100 * time.Millisecond, 300 * time.Millisecond, 599 * time.Millisecond} {
+			rejoin, off := rejoin, off
+			var got []string
+			var herr string
+			body := func() {
+				vsched.Branching(false)
+				got, herr = nil, ""
+				fs := vos.NewFS(nil)
+				vos.Install(fs)
+				defer vos.Install(nil)
+				logger := log.New(io.Discard, "", 0)
+				clock := &serf.LamportClock{}
+				clock.Increment()
+				out := make(chan serf.Event, 64)
+				sh := make(chan struct{})
+				in, snap, err := serf.NewSnapshotter("/snap/c13", 128*1024, rejoin, logger, clock, out, sh)
+				if err != nil {
+					herr = err.Error()
+					return
+				}
+				member := func(name string, i byte) serf.Member {
+					return serf.Member{Name: name, Addr: net.IPv4(10, 0, 0, i), Port: 7946}
+				}
+				in <- serf.MemberEvent{Type: serf.EventMemberJoin, Members: []serf.Member{member("foo", 1)}}
+				vsched.Quiesce()
+				vsched.Advance(int64(700 * time.Millisecond)) // the flush interval has passed: the next append writes
+				fs.SlowAt = fs.Faultable() + 1
+				fs.Slow = func() { vsched.Sleep(int64(600*time.Millisecond), "slow-disk") }
+				vsched.SetHorizon(vsched.Elapsed() + int64(2*time.Second)) // the waits of this phase elapse by themselves
+				vsched.Branching(true)
+				p := vsched.Spawn("memberlist", func() {
+					in <- serf.MemberEvent{Type: serf.EventMemberJoin, Members: []serf.Member{member("bar", 2)}}
+				})
+				l := vsched.Spawn("leave", func() {
+					if off > 0 {
+						vsched.Sleep(int64(off), "before-leave")
+					}
+					snap.Leave()
+				})
+				p.Join()
+				l.Join()
+				vsched.Branching(false)
+				vsched.SetHorizon(vsched.Elapsed())
+				vsched.Quiesce()
+				// after the leave: another member shows up (while the slow operation may still be running),
+				// the disk gets through its work, then the node shuts down
+				in <- serf.MemberEvent{Type: serf.EventMemberJoin, Members: []serf.Member{member("late", 3)}}
+				vsched.Quiesce()
+				vsched.Advance(int64(time.Second))
+				vsched.SetHorizon(vsched.Elapsed() + int64(2*time.Second))
+				close(sh)
+				snap.Wait()
+				sh2 := make(chan struct{})
+				_, snap2, err := serf.NewSnapshotter("/snap/c13", 128*1024, rejoin, logger, clock, nil, sh2)
+				if err != nil {
+					herr = "reopen: " + err.Error()
+					return
+				}
+				for _, a := range snap2.AliveNodes() {
+					got = append(got, a.Name)
+				}
+				sort.Strings(got)
+				close(sh2)
+				vsched.Quiesce()
+			}
+			check := func(x *vsched.Exec) (string, string, string) {
+				if len(x.Panics) > 0 {
+					return "panic", "slow-disk: panic " + x.Panics[0].Frame, x.Panics[0].Value + "\n" + x.Panics[0].Stack
+				}
+				if herr != "" {
+					return "harness", "harness: " + herr, herr
+				}
+				if !x.RootDone {
+					return "stuck", "slow-disk: deadlock", fmt.Sprintf("blocked %+v", x.Blocked)
+				}
+				g := strings.Join(got, ",")
+				ok := g == ""
+				if rejoin {
+					ok = g == "foo" || g == "bar,foo" // bar's join may or may not have been recorded before the leave
+				}
+				if !ok {
+					return "rejoin-set=" + g, "slow-disk: the leave is not on record after Leave returned and the node shut down", fmt.Sprintf("rejoin-after-leave=%v: the stream goroutine was inside a 600 ms write when Leave was called %v into it; after Leave returned, a later join and the shutdown, a restart would re-join [%s]", rejoin, off, g)
+				}
+				return "rejoin-set=" + g, "", ""
+			}
+			ctx.Explore(vc.ExploreOpts{Name: fmt.Sprintf("concurrent/leave-during-slow-write/rejoin=%v/offset=%v", rejoin, off), Bound: bound, MaxSteps: 100000}, body, check)
+		}
 	}
 }
